@@ -44,6 +44,9 @@ var baseAtoms = []atom{
 	{`[[1]]`, 3},
 	{`{}`, 2},
 	{`{"k":"v","a":[1]}`, 3},
+	// two objects of one size that share a member and differ in the name of the other
+	{`{"a":1,"b":2}`, 2},
+	{`{"a":1,"c":2}`, 2},
 	// --- cond clauses (plain two-element lists for every other function)
 	{`[true,1]`, 0},
 	{`[false,2]`, 1},
